@@ -1,4 +1,4 @@
 From Coq Require Extraction.
 From Coq Require Import ExtrOcamlBasic.
-From NV Require Import Base.Witness Bgzf.Vpos Bgzf.Gzi Bgzf.ReaderOps Bgzf.WriterTell Bgzf.GziBs Bgzf.SeekBytes Bgzf.WriterTellSink Bgzf.SeekBytesShift Bgzf.SeekBytesReloc.
-Extraction "model.ml" nv_types_witness pack vcomp vuncomp vpos_try_from vpos_cmp gzi_query init run pinned_tree_repaired wtell_run partition_point_bs gzi_query_bs run_bs hseek_run hread_run fwtell_run pinned_writer_repaired hrs_run hshift_run hreloc_run.
+From NV Require Import Base.Witness Bgzf.Vpos Bgzf.Gzi Bgzf.ReaderOps Bgzf.WriterTell Bgzf.GziBs Bgzf.SeekBytes Bgzf.WriterTellSink Bgzf.SeekBytesShift Bgzf.SeekBytesReloc Bgzf.SeekBytesShiftOps.
+Extraction "model.ml" nv_types_witness pack vcomp vuncomp vpos_try_from vpos_cmp gzi_query init run pinned_tree_repaired wtell_run partition_point_bs gzi_query_bs run_bs hseek_run hread_run fwtell_run pinned_writer_repaired hrs_run hshift_run hreloc_run hshiftops_run.
